@@ -15,7 +15,7 @@ from . import c04
 LEVEL = 'exploration'
 TECHNIQUE = "runtime monitoring of the client's writes: strict independent frame decoder and reference zlib peer on every API call"
 BUDGET_S = {'quick': 30, 'thorough': 200}
-REQUIRED = {'all': ['oracle.transport_fault_calls', 'oracle.accepted_calls_decoded', 'oracle.rejected_calls_checked', 'oracle.rsv1_frames_inflated',
+REQUIRED = {'all': ['oracle.nested_call_runs_on_a_compressed_connection', 'oracle.transport_fault_calls', 'oracle.accepted_calls_decoded', 'oracle.rejected_calls_checked', 'oracle.rsv1_frames_inflated',
                     'oracle.mask_key_sweep_calls']}
 RULE = ('API calls (send_text/binary/json/ping/pong, close) made on a Ready simulated connection through the '
         'real WebSocket -> session.send -> Frame.build -> mask -> write path; the bytes written by each call '
@@ -197,7 +197,7 @@ def cases(tier, seed, i, n):
         # (1b) the socket write of the k-th call is interrupted / fails, possibly after a partial write:
         #      the call must then raise (never return normally having written something else than one frame)
         for k in range(1, 6):
-            for fk in ('eintr-partial', 'eagain-partial', 'reset', 'timeout', 'reset-braces', 'runtime'):
+            for fk in ('eintr-partial', 'eagain-partial', 'reset', 'timeout', 'reset-braces', 'runtime', 'kbint', 'sysexit'):
                 for mode in modes[:2]:
                     calls = [dict(name='send_binary', args=[bytes([65 + j]) * n]) for j, n in enumerate((10, 0, 300, 70000, 5, 126))]
                     calls.insert(2, dict(name='send_text', args=['text ' * 7]))
@@ -526,7 +526,11 @@ def judge_call(case, rec, acc, z, peer, mask):
         if rec.get('faulted'):
             # an injected transport fault: the call must fail with a WebSocketError (partial bytes may be on the wire)
             acc.count2('oracle', 'transport_fault_calls')
-            if not state_exc:
+            if issubclass(et, (KeyboardInterrupt, SystemExit)):
+                # the injected interruption itself (not an Exception): it reaches the application as it is, nothing was
+                # written, and the connection is as usable afterwards as it was before
+                acc.count2('oracle', 'calls_interrupted_by_a_base_exception')
+            elif not state_exc:
                 key = 'wrong-exception-type:%s:%s' % (name, et.__name__)
         elif wrote:
             key = 'rejected-call-wrote-bytes'
